@@ -1,7 +1,7 @@
 import AsyncsshModel.Base.Hex
 /-
   One endpoint of an SSH channel: the send half and the receive half of `class SSHChannel`
-  (/repo/asyncssh/channel.py, tree with the fixes de5c08f, 53cd2ff, 024eb80), transcribed between awaits as total
+  (/repo/asyncssh/channel.py, tree with the fixes de5c08f, 53cd2ff, 024eb80, d334dad), transcribed between awaits as total
   functions.
 
   send half    : `write` (896-950), `_flush_send_buf` (305-335), `write_eof` (981-997), `close` (768-786),
@@ -21,7 +21,8 @@ import AsyncsshModel.Base.Hex
   proves that the fuel used by `flushSend` ALWAYS suffices (since fix de5c08f the loop breaks when the packet size
   is `<= 0`).  The loop as it was before that fix is kept as `flushDataOld`: for `sendPktsize = 0` no amount of
   fuel suffices (defect F2).  Likewise `recvDataOld` is the receive-side window check before fix 53cd2ff (F3) and
-  `closeStepOld` / `recvCloseOld` the CLOSE handling before fix 024eb80 (F13).
+  `closeStepOld` / `recvCloseOld` the CLOSE handling before fix 024eb80 (F13), `flushTailOld` the tail of
+  `_flush_send_buf` before fix d334dad (EOF forgotten when `close()` follows `write_eof()`).
 
   `_recv_buf_len` (53cd2ff) is not a field: it is incremented when data is buffered, decremented when it is popped
   and reset when the buffer is discarded, i.e. it always equals `bufBytes recvBuf`, which the model uses.
@@ -91,6 +92,8 @@ structure Chan where
   sendWindow : Nat
   sendPktsize : Nat
   sendBuf : Buf
+  /-- `_send_eof_pending`: `write_eof()` was called before `close()` and the EOF is still owed to the peer -/
+  sendEofPending : Bool := false
   recvState : RecvState
   /-- `_recv_window` (can go negative transiently, see `deliverData`) -/
   recvWindow : Int
@@ -163,6 +166,19 @@ def flushFuel (c : Chan) : Nat := bufBytes c.sendBuf + c.sendBuf.length + 1
 
 /-- the tail of `_flush_send_buf`: EOF / CLOSE deferred until the buffer has drained -/
 def flushTail (c : Chan) : Chan × List Msg :=
+  match c.sendBuf with
+  | [] =>
+    match c.sendState with
+    | .eofPending => ({ c with sendState := .eof }, sendPkt c .eof)
+    | .closePending =>
+      -- `if self._send_eof_pending:` … `self.send_packet(MSG_CHANNEL_EOF)` (fix d334dad), then `_close_send()`
+      let r := closeSend { c with sendEofPending := false }
+      (r.1, (if c.sendEofPending then sendPkt c .eof else []) ++ r.2)
+    | _ => (c, [])
+  | _ :: _ => (c, [])
+
+/-- the same before fix d334dad: `close()` after `write_eof()` forgets the EOF -/
+def flushTailOld (c : Chan) : Chan × List Msg :=
   match c.sendBuf with
   | [] =>
     match c.sendState with
@@ -320,7 +336,8 @@ def step (c : Chan) : Ev → StepRes
   | .writeEof => liftSend (writeEof c)
   | .close =>
     let r1 : Option (Chan × List Msg) :=
-      if c.sendState ≠ .closePending ∧ c.sendState ≠ .closed then flushSend { c with sendState := .closePending }
+      if c.sendState ≠ .closePending ∧ c.sendState ≠ .closed then
+        flushSend { c with sendEofPending := decide (c.sendState = .eofPending), sendState := .closePending }
       else some (c, [])
     match r1 with
     | none => .error .spin
@@ -364,12 +381,12 @@ def recvCloseOld (c : Chan) : StepRes :=
     | none => .error .spin
     | some (c2, ms, os) => .ok (c2, r.2 ++ ms, os)
 
-/-- `_flush_send_buf` before fix de5c08f -/
+/-- `_flush_send_buf` before the fixes de5c08f and d334dad -/
 def flushSendOld (c : Chan) : Option (Chan × List Msg) :=
   match flushDataOld (flushFuel c) c with
   | none => none
   | some (c1, ms) =>
-    let r := flushTail c1
+    let r := flushTailOld c1
     some (r.1, ms ++ r.2)
 
 /-- the endpoint as it was before the three fixes, for the events the fixes touch -/
@@ -379,6 +396,22 @@ def stepOld (c : Chan) : Ev → StepRes
     else if ¬ typeOk c.writeTypes dt then .error .badDatatype
     else if bs.isEmpty then .ok (c, [], [])
     else liftSend (flushSendOld { c with sendBuf := c.sendBuf ++ [(bs, dt)] })
+  | .writeEof =>
+    if c.sendState = .opn then liftSend (flushSendOld { c with sendState := .eofPending }) else .ok (c, [], [])
+  | .close =>
+    let r1 : Option (Chan × List Msg) :=
+      if c.sendState ≠ .closePending ∧ c.sendState ≠ .closed then flushSendOld { c with sendState := .closePending }
+      else some (c, [])
+    match r1 with
+    | none => .error .spin
+    | some (c1, ms) =>
+      if c1.recvState ≠ .closed then
+        let r2 := discardRecv c1
+        .ok (r2.1, ms, r2.2)
+      else .ok (c1, ms, [])
+  | .recv (.adjust n) =>
+    if ¬ recvOpenish c.recvState then .error .notOpen
+    else liftSend (flushSendOld { c with sendWindow := c.sendWindow + n })
   | .resume =>
     if c.recvPaused ≠ .no then liftRecv (flushRecvOld { c with recvPaused := .no }) else .ok (c, [], [])
   | .startReading =>
@@ -397,7 +430,7 @@ def Chan.opened (initWindow : Nat) (readTypes writeTypes : List Nat) (eofKeep : 
     (peerWindow peerPktsize : Nat) (paused : Paused) : Chan :=
   { initWindow, readTypes, writeTypes, eofKeep,
     sendState := .opn, sendChanOpen := true, sendWindow := peerWindow, sendPktsize := peerPktsize, sendBuf := [],
-    recvState := .opn, recvWindow := initWindow, recvPaused := paused, recvBuf := [], recvEofPending := false,
+    sendEofPending := false, recvState := .opn, recvWindow := initWindow, recvPaused := paused, recvBuf := [], recvEofPending := false,
     pauseAfter := none }
 
 end AsyncsshModel.Channel
